@@ -20,7 +20,7 @@ STRONG_HI_RESPONSE_CROPS = ["Cotton", "Cotton", "CottonGDD", "Sorghum", "Sorghum
 
 
 def gen_case(rng, tier, idx):
-    if idx % 8 == 3:
+    if idx % 8 in (3, 7):
         # crops whose harvest index responds strongly to moderate water stress after flowering (small a_HI) under deficit
         # irrigation or rain-fed in a dry climate with re-watering: the stress multiplier presses against its cap 1 + dHI0/100
         prof = dict(PROFILE, crops=STRONG_HI_RESPONSE_CROPS, gw=0.0, custom_soil_p=0.1, restrictive_p=0.0, irr_methods=[1, 1, 1, 1, 0],
@@ -35,10 +35,15 @@ def gen_case(rng, tier, idx):
             irr["kwargs"]["SMT"] = [rng.choice([60, 80, lo]), lo, lo, lo]
             irr["kwargs"]["MaxIrr"] = rng.choice([6, 10, 15, 25])
             irr["kwargs"].pop("MaxIrrSeason", None)
-        if rng.random() < 0.5:
-            # net irrigation with a low target pins the depletion between the expansion and the stomatal threshold for weeks
-            case["spec"]["irr"] = {"method": 4, "kwargs": {"NetIrrSMT": rng.choice([28, 32, 36, 40, 45])}, "schedule": None}
+        pin = rng.random() < 0.65
+        if pin:
+            # net irrigation with a low target pins the depletion between the expansion and the stomatal threshold for weeks;
+            # a start at or above field capacity lets the crop reach flowering before the target is met
+            case["spec"]["irr"] = {"method": 4, "kwargs": {"NetIrrSMT": rng.choice([26, 28, 30, 32, 32, 34, 36, 40, 45])}, "schedule": None}
             case["controller"] = None
+            if rng.random() < 0.6:
+                case["spec"]["iwc"] = {"wc_type": "Pct", "method": "Layer", "depth_layer": [1], "value": [rng.choice([90, 100, 100])]}
+                case["spec"]["weather"]["events"] = [e for e in case["spec"]["weather"]["events"] if e["kind"] != "drought"]
         # a short cold or hot spell somewhere in the flowering period: pollination falls a little short of complete
         from ..gen import season_spans
         from ..spec import parse_date
@@ -47,10 +52,15 @@ def gen_case(rng, tier, idx):
         off = (parse_date(case["spec"]["start"]) - parse_date(w["start"])).days
         mat = CROP_INFO[case["spec"]["crop"]["name"]]["MaturityCD"]
         for a, b in season_spans(case["spec"]):
-            if rng.random() < 0.7:
+            if rng.random() < (0.9 if pin else 0.7):
                 d = a + int(mat * rng.uniform(0.3, 0.6))
-                w["events"].append({"kind": rng.choice(["cold_snap", "cold_snap", "heat_wave"]), "day": off + d, "len": rng.choice([2, 4, 7, 12, 20, 35]),
-                                    "mag": round(rng.uniform(8, 16), 1)})
+                w["events"].append({"kind": rng.choice(["cold_snap", "cold_snap", "heat_wave"]), "day": off + d, "len": rng.choice([2, 4, 7, 12, 20, 35, 35]),
+                                    "mag": round(rng.uniform(3, 16), 1)})
+                if pin and rng.random() < 0.5:
+                    # a second, short spell at the edge of the flowering period: a few per cent of the flowers are lost
+                    d2 = a + int(mat * rng.uniform(0.3, 0.7))
+                    w["events"].append({"kind": rng.choice(["cold_snap", "heat_wave"]), "day": off + d2, "len": rng.choice([1, 2, 3, 5]),
+                                        "mag": round(rng.uniform(5, 20), 1)})
         return case
     case = std_case(rng, PROFILE)
     if idx % 4 == 1:
